@@ -415,6 +415,11 @@ def pool_pair(ctx, L, rule="R-POOL-PAIR"):
         for r in runs(ctx, g):
             rets = [e for _, e in r.effects() if e.kind == "ret" and e.value != ("c", None)]
             st = [e for _, e in r.effects() if e.kind == "store"]
+            # `idx = next((...), None); if idx is not None: mark; return idx`: on the path where the test says None, None is returned
+            if rets and any(p_ and g_ == mk_cmp("==", rets[0].value, ("c", None)) for g_, p_ in lits(r.guards())):
+                if st:
+                    ctx.violated(rule, g, "22 %s marks nothing when no number is free" % get, "a list entry is marked although None is returned", st[0].node)
+                continue
             if rets:
                 inst = "22 %s returns the index it marks used" % get
                 from .common import affine_eq
@@ -431,6 +436,72 @@ def pool_pair(ctx, L, rule="R-POOL-PAIR"):
                 ctx.holds(rule, inst)
             else:
                 ctx.violated(rule, p, inst, "setter stores %s" % (pretty(st[0].target) if st else None), p.node)
+
+
+def _min_form(a, var, pm):
+    """assignment `a` to `var` keeps the running minimum: min(var, X) / guarded by `var > X` / conditional expression"""
+    v = a.value
+    if isinstance(v, ast.Call) and isinstance(v.func, ast.Name) and v.func.id == "min" and any(isinstance(x, ast.Name) and x.id == var for x in v.args):
+        return True
+    if isinstance(v, ast.IfExp) and isinstance(v.test, ast.Compare) and len(v.test.ops) == 1:
+        l, r_, op = v.test.left, v.test.comparators[0], v.test.ops[0]
+        isvar = lambda x: isinstance(x, ast.Name) and x.id == var
+        for cand, keep in ((v.body, v.orelse), (v.orelse, v.body)):
+            if not isvar(keep) or isvar(cand):
+                continue
+            dv = ast.dump(cand)
+            takes_new_when_true = cand is v.body
+            later = (isinstance(op, (ast.Gt, ast.GtE)) and isvar(l) and ast.dump(r_) == dv) or (isinstance(op, (ast.Lt, ast.LtE)) and isvar(r_) and ast.dump(l) == dv)
+            earlier = (isinstance(op, (ast.Lt, ast.LtE)) and isvar(l) and ast.dump(r_) == dv) or (isinstance(op, (ast.Gt, ast.GtE)) and isvar(r_) and ast.dump(l) == dv)
+            if (takes_new_when_true and later) or (not takes_new_when_true and earlier):
+                return True
+    par = pm.get(a)
+    if isinstance(par, ast.If) and a in par.body and isinstance(par.test, ast.Compare) and len(par.test.ops) == 1:
+        l, r, op = par.test.left, par.test.comparators[0], par.test.ops[0]
+        dv = ast.dump(v)
+        if isinstance(op, (ast.Gt, ast.GtE)) and isinstance(l, ast.Name) and l.id == var and ast.dump(r) == dv:
+            return True
+        if isinstance(op, (ast.Lt, ast.LtE)) and isinstance(r, ast.Name) and r.id == var and ast.dump(l) == dv:
+            return True
+    return False
+
+
+def _helper_keeps_min(ctx, cls, call, var, depth=0):
+    """`var = self.h(.., var, ..)`: h is a helper of the same class that receives the wake-up time in one parameter, only ever lowers
+    it in the running-minimum forms, and returns it (possibly through further helpers)"""
+    from .common import is_helper
+    from .robust import parents
+    if depth > 3 or not (isinstance(call, ast.Call) and isinstance(call.func, ast.Attribute) and isinstance(call.func.value, ast.Name)
+                         and call.func.value.id == "self"):
+        return False
+    h = ctx.prog.find_method(cls, call.func.attr)
+    if h is None or not is_helper(h):
+        return False
+    pos = [i for i, x in enumerate(call.args) if isinstance(x, ast.Name) and x.id == var]
+    kw = [k.arg for k in call.keywords if isinstance(k.value, ast.Name) and k.value.id == var]
+    if len(pos) + len(kw) != 1:
+        return False
+    pv = h.params[pos[0]] if pos and pos[0] < len(h.params) else (kw[0] if kw else None)
+    if pv is None:
+        return False
+    pm = parents(h.node)
+    for n in ast.walk(h.node):
+        if isinstance(n, ast.Assign) and any(isinstance(t, ast.Name) and t.id == pv for t in n.targets):
+            if not (_min_form(n, pv, pm) or _helper_keeps_min(ctx, cls, n.value, pv, depth + 1)):
+                return False
+        elif isinstance(n, (ast.AugAssign, ast.AnnAssign)) and isinstance(n.target, ast.Name) and n.target.id == pv:
+            return False
+        elif isinstance(n, ast.Return):
+            v = n.value
+            if isinstance(v, ast.Name) and v.id == pv:
+                continue
+            if v is not None and isinstance(v, ast.Call) and isinstance(v.func, ast.Name) and v.func.id == "min" and \
+                    any(isinstance(x, ast.Name) and x.id == pv for x in v.args):
+                continue
+            if v is not None and _helper_keeps_min(ctx, cls, v, pv, depth + 1):
+                continue
+            return False
+    return True
 
 
 def wakeup_min(ctx, func, rule="R-WAKEUP-MIN", tag=""):
@@ -459,30 +530,7 @@ def wakeup_min(ctx, func, rule="R-WAKEUP-MIN", tag=""):
         if k == 0:
             continue  # initialisation (now + 5 s / result of the DLL scan)
         v = a.value
-        ok = False
-        if isinstance(v, ast.Call) and isinstance(v.func, ast.Name) and v.func.id == "min" and any(isinstance(x, ast.Name) and x.id == var for x in v.args):
-            ok = True
-        if isinstance(v, ast.IfExp) and isinstance(v.test, ast.Compare) and len(v.test.ops) == 1:
-            # wake = d if wake > d else wake   /   wake = wake if wake <= d else d   (and the mirrored comparisons)
-            l, r_, op = v.test.left, v.test.comparators[0], v.test.ops[0]
-            isvar = lambda x: isinstance(x, ast.Name) and x.id == var
-            for cand, keep in ((v.body, v.orelse), (v.orelse, v.body)):
-                if not isvar(keep) or isvar(cand):
-                    continue
-                dv = ast.dump(cand)
-                takes_new_when_true = cand is v.body
-                later = (isinstance(op, (ast.Gt, ast.GtE)) and isvar(l) and ast.dump(r_) == dv) or (isinstance(op, (ast.Lt, ast.LtE)) and isvar(r_) and ast.dump(l) == dv)
-                earlier = (isinstance(op, (ast.Lt, ast.LtE)) and isvar(l) and ast.dump(r_) == dv) or (isinstance(op, (ast.Gt, ast.GtE)) and isvar(r_) and ast.dump(l) == dv)
-                if (takes_new_when_true and later) or (not takes_new_when_true and earlier):
-                    ok = True
-        par = pm.get(a)
-        if isinstance(par, ast.If) and a in par.body and isinstance(par.test, ast.Compare) and len(par.test.ops) == 1:
-            l, r, op = par.test.left, par.test.comparators[0], par.test.ops[0]
-            dv = ast.dump(v)
-            if isinstance(op, (ast.Gt, ast.GtE)) and isinstance(l, ast.Name) and l.id == var and ast.dump(r) == dv:
-                ok = True
-            if isinstance(op, (ast.Lt, ast.LtE)) and isinstance(r, ast.Name) and r.id == var and ast.dump(l) == dv:
-                ok = True
+        ok = _min_form(a, var, pm) or (f.cls is not None and _helper_keeps_min(ctx, f.cls, v, var))
         inst = "%s%s update #%d: wake-up := %s only when earlier" % (tag, f.name, k, ast.unparse(v)[:40])
         if ok:
             n_ok += 1
